@@ -852,9 +852,9 @@ class Interp:
             return ("classmethod", o, e.attr)
         if isinstance(o, tuple) and o and o[0] == "super":
             return ("supermethod", o[1], o[2], e.attr)
-        if isinstance(o, list) and e.attr in ("extend", "append"):
+        if isinstance(o, list) and e.attr in ("extend", "append", "index"):
             return ("listmethod", o, e.attr)
-        if isinstance(o, str) and e.attr in ("startswith",):
+        if isinstance(o, str) and e.attr in ("startswith", "endswith"):
             return ("strmethod", o, e.attr)
         raise Refuse("attribute access " + ast.unparse(e))
 
@@ -881,13 +881,17 @@ class Interp:
                 # property of the parent accessed as attribute is handled in attribute()
                 return self.call_method(obj, name, args, after=owner)
             if kind == "listmethod":
+                if f[2] == "index":
+                    if args[0] not in f[1]:
+                        raise Refuse("list.index of a missing value")
+                    return Sym.q(f[1].index(args[0]))
                 if f[2] == "extend":
                     f[1].extend(self.iterate(args[0]))
                 else:
                     f[1].append(args[0])
                 return None
             if kind == "strmethod":
-                return f[1].startswith(args[0])
+                return getattr(f[1], f[2])(args[0])
             if kind == "bound":
                 return self.call_method(f[1], f[2], args)
             if kind == "builtin":
